@@ -745,6 +745,17 @@ func (run *runner) judgeReplies(w *world, res *stackResult, prior *stackResult) 
 		// published on release) against the configured aggregate budgets;
 		// only when exactly one ledger was published in the window
 		if obs.Trees == 1 {
+			// the transport attempts the tree's one ledger ACCEPTED (its own
+			// count, published on release; attempts that were debited and then
+			// abandoned before a datagram left never reach the packet log)
+			r.Count("enforce_trees_ledger_outbound_count_judged", 1)
+			effective := int64(budget)
+			if res.fw.MaxOutboundQueries > 0 {
+				effective = int64(res.fw.MaxOutboundQueries)
+			}
+			if obs.Debits > effective {
+				r.Violation("enforce/ledger-accepted-outbound-debits-exceed-budget", fmt.Sprintf("%s under %s: the one ledger published for query %d (%s) accepted %d transport attempts with max_outbound_queries=%d (packets at the scripted servers: %d, after the reply %d)", spec.shape(), cfg.Label, qi+1, obs.Query, obs.Debits, effective, obs.Packets, obs.AfterReply), c)
+			}
 			fw := res.fw
 			for op, lim := range map[string]uint32{"signature_checks": fw.MaxSignatureChecks, "ds_digests": fw.MaxDSDigests, "nsec3_hashes": fw.MaxNSEC3Hashes} {
 				n := obs.DNSSECOps[op]
